@@ -506,10 +506,18 @@ def main(modname, tier, seed):
         wall_s=round(wall, 2),
         violations=violations,
     )
-    os.makedirs(os.path.join(VERIF, "evidence"), exist_ok=True)
-    with open(os.path.join(VERIF, "evidence", f"{mod.ID}.json"), "w") as f:
+    evdir = os.path.join(VERIF, "evidence")
+    if os.environ.get("VERIF_NO_EVIDENCE"):
+        # sensitivity runs against scratch copies must not overwrite the evidence of /repo
+        evdir = os.path.join("/tmp", f"eg_evidence_{os.getpid()}")
+    os.makedirs(evdir, exist_ok=True)
+    with open(os.path.join(evdir, f"{mod.ID}.json"), "w") as f:
         json.dump(evidence, f, indent=1, default=repr)
         f.write("\n")
+    if os.environ.get("VERIF_NO_EVIDENCE"):
+        import shutil
+
+        shutil.rmtree(evdir, ignore_errors=True)
 
     for line in kf_lines:
         print(line)
